@@ -80,6 +80,16 @@ class C05(props.BaseProp):
             if weighted and not big:
                 cg.weight_variant(r2, c)
             cases.append(c)
+            if weighted and not big and i % 12 == 5:
+                nm = cg.gen_names(r2, 5 + r2.below(2))
+                c["nodes"], c["edges"] = (nm if r2.below(2) else nm[:r2.below(4)]), cg.gadget_decrease_key(r2, nm)
+                c["spec"] = (c["spec"][0], 0, c["spec"][2], 2, 0, 1)
+                c.pop("wscale", None)
+            if i % 1500 == 400:
+                # 2^70 equal-length shortest paths between the ends (oracle only): path counters must not overflow
+                h = cg.diamond_chain(r2, "bd%d" % i)
+                h.update(weighted=r2.below(2) == 1, normalized=r2.below(2) == 1, withdef=False)
+                cases.append(h)
             if i % 1500 == 750:
                 # above 1024 nodes (oracle only): a size-dependent slip in the parallel arm (batching, chunking)
                 h = cg.huge_case(r2, "bh%d" % i)
